@@ -106,6 +106,7 @@ def option_table(lang):
         t.append(dict(key=key, family=family, where=where, expr=expr, check=check))
     add('define', 'define', 'c', "opts.define('NAME')", ('fact', 'NAME', '1'))
     add('define=42', 'define', 'c', "opts.define('NAME', '42')", ('fact', 'NAME', '42'))
+    add('define=(empty)', 'define', 'c', "opts.define('NAME', '')", ('fact', 'NAME', ''))
     add('define=a+b', 'define', 'c', "opts.define('NAME', 'a+b')", ('fact', 'NAME', 'a+b'))
     for s, v in (C_STDS if lang == 'c' else CXX_STDS):
         add('std=' + s, 'std', 'c', "opts.std(%r)" % s, ('fact', 'STD', str(v)))
